@@ -67,6 +67,16 @@ def public_load_outcome(path):
         return ('raised', type(e).__name__)
 
 
+def config_outcome(path):
+    """... and through Config(path), the object an application builds from the file."""
+    from pyIRDecoder import Config
+    try:
+        c = Config(path)
+        return ('loaded', len(list(c)))
+    except Exception as e:  # noqa
+        return ('raised', type(e).__name__)
+
+
 def run(ctx):
     vlib.import_repo()
     from pyIRDecoder import protocols, xml_handler
@@ -155,7 +165,48 @@ def run(ctx):
                     if pub[0] == 'loaded' and pub[1] != n_good:
                         ctx.report('xml_handler.load', 'truncated file silently loaded', dict(offset=k, backup=with_backup),
                                    dict(offset=k, with_backup=with_backup, children_loaded=pub[1], children_saved=n_good))
+                    # ... and neither must Config(path) (with the good backup, or with none)
+                    for bk in ((good,) if with_backup else (None,)):
+                        with open(cfgpath, 'w') as fh:
+                            fh.write(good[:k])
+                        if bk is not None:
+                            with open(cfgpath + '.backup', 'w') as fh:
+                                fh.write(bk)
+                        elif os.path.exists(cfgpath + '.backup'):
+                            os.remove(cfgpath + '.backup')
+                        cfo = config_outcome(cfgpath)
+                        ctx.count_eval(key=(k, with_backup, 'Config', bk is good))
+                        if cfo[0] == 'loaded' and cfo[1] != n_good and good[:k].strip() != good.strip():
+                            ctx.report('Config', 'truncated file silently loaded', dict(offset=k, backup=with_backup, backup_damaged=bk is not good),
+                                       dict(offset=k, with_backup=with_backup, backup_damaged=bk is not good,
+                                            children_loaded=cfo[1], children_saved=n_good))
+                    if with_backup:
+                        with open(cfgpath + '.backup', 'w') as fh:
+                            fh.write(good)
                 complete_prefix = good[:k].strip() == good.strip()
+                if with_backup and (k % 5 == 0 or k < 3) and good[:k].strip() != good.strip():
+                    # the session that recovered from the backup goes on and saves again: that save must not put the damaged file
+                    # in the place of the good backup either (a second interrupted save would then leave nothing to recover from)
+                    with open(cfgpath, 'w') as fh:
+                        fh.write(good[:k])
+                    with open(cfgpath + '.backup', 'w') as fh:
+                        fh.write(good)
+                    try:
+                        r = xml_handler.XMLRootElement.handle_file(cfgpath)
+                        r.save()
+                        r.write_file()
+                    except Exception:  # noqa
+                        r = None
+                    ctx.count_eval(key=(k, 'save after recovery'))
+                    b = open(cfgpath + '.backup').read() if os.path.exists(cfgpath + '.backup') else ''
+                    if r is not None and b.strip() != good.strip():
+                        ctx.report('write_file', 'good backup overwritten by the damaged file', dict(offset=k),
+                                   dict(offset=k, scenario='truncated file + good backup -> load (recovers) -> save', backup_length=len(b),
+                                        good_length=len(good)))
+                    with open(cfgpath, 'w') as fh:
+                        fh.write(good[:k])
+                    with open(cfgpath + '.backup', 'w') as fh:
+                        fh.write(good)
                 if out[0] == 'loaded' and out[1] != n_good:
                     ctx.report('handle_file', 'truncated file silently loaded', dict(offset=k, backup=with_backup),
                                dict(offset=k, with_backup=with_backup, children_loaded=out[1], children_saved=n_good))
